@@ -101,6 +101,67 @@ CLAIMED['C08'] = dict(
               '+ malformed-input exploration',
     ref='DESIGN.md 7 (C08)')
 
+CLAIMED['C01'] = dict(
+    text='Lean 4 theorems on the loader model: recognition soundness (the unique recognised type is '
+         'admitted by the declared type, by induction on fuel, for arbitrary tags and custom '
+         'recognisers), the processed root carries exactly that type\'s tag or is stripped to core tags '
+         'for Any, a node with a built-in scalar tag constructs a value of exactly that kind, a class '
+         'node constructs only after the missing/extraneous/type checks passed (their meaning spelled '
+         'out), Any/untyped/extra positions construct to plain data without constructor calls '
+         '(induction over the stripped tree), the empty document is a null. The deep statement '
+         '(conformance of every nested value) is validated on the real code by an independent '
+         'conformance oracle on every generated load; its Lean proof covers the links of the chain '
+         'listed above. ' + LOADER_TIE,
+    note=NOTE_COMMON + 'deep conformance is composed from the proved per-node links by the '
+         'exploration oracle, not yet by one inductive theorem (DESIGN.md, open proof obligations).',
+    technique='Lean 4 proofs (recognition soundness, tagging, exact-kind construction, plain-data '
+              'induction) + differential correspondence + independent conformance oracle',
+    ref='DESIGN.md 7 (C01)')
+CLAIMED['C04'] = dict(
+    text='Lean 4 theorems: the regenerated resolver table yields core tags only (decide), strip_tags '
+         'leaves core tags only, and a tree with core tags only constructs to plain data with an empty '
+         'constructor-call log or fails (induction on fuel through flatten_mapping, sequences and '
+         'mappings) - hence Any / untyped / extra positions; !!python/* scalars end in a YAML '
+         'constructor error; constructor calls are only made for registered classes named by a tag. '
+         'On the real code: injected tags (registered, unknown, !!python/object[/apply|/new], '
+         '!!python/name, !!python/module, core tags) never cause a constructor run for an object that '
+         'is not in the result at an admitting position, never import a canary module or call '
+         'os.system. ' + LOADER_TIE,
+    note=NOTE_COMMON + 'Loader derives from yaml.SafeLoader (asserted each run); "nothing is imported" '
+         'is structural in the model and sampled on the real code.',
+    technique='Lean 4 proof (plain-data induction over stripped trees, decide on the regenerated '
+              'table) + differential correspondence + tag-injection exploration with canaries',
+    ref='DESIGN.md 7 (C04)')
+CLAIMED['C10'] = dict(
+    text='Lean 4 theorems on the model of Loader.__savorize / __process_node: when savorizing succeeds '
+         'the hooks that ran are exactly the chain of the class (registered direct bases recursively, '
+         'bases first, then the class itself if it defines the hook in its body), each once, whatever '
+         'the hooks do to the node (induction on fuel); every savorize failure surfaces as '
+         'RecognitionError; savorizing happens on the recognised type before attribute processing and '
+         'construction; recognising one class depends only on that class\'s own definition. The real '
+         'hook log (which hook, on which class, order) is compared with the chain computed from the '
+         'class model and with the model trace. Dump-side sweetening is covered by the C06 harness. '
+         + LOADER_TIE,
+    note=NOTE_COMMON + 'enum and string-like representers look _yatiml_sweeten up with hasattr '
+         '(recorded as a known finding when exhibited).',
+    technique='Lean 4 proof (trace = chain, induction on fuel) + differential correspondence of hook '
+              'logs',
+    ref='DESIGN.md 7 (C10)')
+CLAIMED['C13'] = dict(
+    text='Lean 4 theorems: recognising a mapping as an auto-recognised class is invariant under every '
+         'permutation of its key/value pairs; the tag of a recognised container type does not depend '
+         'on the List/Sequence/MutableSequence or Dict/Mapping/MutableMapping spelling; '
+         'bool_union_fix is recognised exactly when bool is and is dropped next to it. Styles are not '
+         'in the model (no code path reads them). On the real code every generated case is re-run '
+         'under key reordering, re-serialisation (block/flow/quoted/canonical/JSON, tags preserved), '
+         'an additional unrelated class, interchanged container kinds and added bool_union_fix; '
+         'outcomes must coincide. ' + LOADER_TIE,
+    note=NOTE_COMMON + 'the scanner delivering the same tree for restyled text is PyYAML (checked per '
+         'case by re-composition).',
+    technique='Lean 4 proofs (permutation invariance of recognition, kind-independent tagging) + '
+              'metamorphic runs on the real code + differential correspondence',
+    ref='DESIGN.md 7 (C13)')
+
 NOT_YET = 'check not built yet in this round (planned proof: DESIGN.md section 7)'
 
 
